@@ -285,4 +285,33 @@ def c17(R):
         except ValueError: R.fail("c17.tolerance", "deviation 5e-5 < 1e-4 rejected", dict(inp, bad_pair=[s_bad, a_bad]))
     return R
 
+
+def c17_shipped(R):
+    """several instances of the SAME problem class with different bounds in one process: each one's matrices against its own functions"""
+    import jax
+    from mdpax.problems.perishable_inventory.de_moor_single_product import DeMoorSingleProductPerishable as DMP
+    from mdpax.problems.perishable_inventory.hendrix_two_product import HendrixTwoProductPerishable as HXP
+    from mdpax.problems.perishable_inventory.mirjalili_platelet import MirjaliliPlateletPerishable as MJP
+    from mdpax.problems import Forest
+    def functional(pb):
+        f = jax.vmap(jax.vmap(jax.vmap(pb.transition, in_axes=(None, None, 0)), in_axes=(None, 0, None)), in_axes=(0, None, None))
+        g = jax.vmap(jax.vmap(jax.vmap(pb.random_event_probability, in_axes=(None, None, 0)), in_axes=(None, 0, None)), in_axes=(0, None, None))
+        nxt, rew = f(pb.state_space, pb.action_space, pb.random_event_space); pr = np.asarray(g(pb.state_space, pb.action_space, pb.random_event_space)); pr = pr.reshape(pr.shape[:3])
+        idx = np.asarray(jax.vmap(jax.vmap(jax.vmap(pb.state_to_index)))(nxt)); rew = np.asarray(rew).reshape(pr.shape); S_, A_, E_ = pr.shape
+        P = np.zeros((A_, S_, S_))
+        for s_ in range(S_):
+            for a_ in range(A_):
+                for e_ in range(E_): P[a_, s_, idx[s_, a_, e_]] += pr[s_, a_, e_]
+        return P / P.sum(-1, keepdims=True), (pr * rew).sum(-1)
+    for cls, kws in [(DMP, [dict(max_demand=3, max_useful_life=2, lead_time=1, max_order_quantity=2), dict(max_demand=3, max_useful_life=2, lead_time=1, max_order_quantity=3)]),
+                     (MJP, [dict(max_demand=2, max_useful_life=2, max_order_quantity=1, useful_life_at_arrival_distribution_c_0=(0.5,), useful_life_at_arrival_distribution_c_1=(0.2,)), dict(max_demand=2, max_useful_life=2, max_order_quantity=2, useful_life_at_arrival_distribution_c_0=(0.5,), useful_life_at_arrival_distribution_c_1=(0.2,))]),
+                     (Forest, [dict(S=3), dict(S=5, p=0.3)])]:
+        for kw in kws:
+            pb = cls(**kw); inp = dict(problem=cls.__name__, params=kw, note="built after another instance of the same class in this process"); R.case((cls.__name__, json.dumps(kw)), None)
+            Pm, Rm = pb.build_transition_and_reward_matrices(); Pref, Rref = functional(pb)
+            if not close(Pm, Pref, 1e-6) or not close(Rm, Rref, 1e-6): R.fail("c17.matrices_of_shipped_problem", "matrices differ from the accumulation of the problem's own functions", inp, float(np.abs(np.asarray(Pm) - Pref).max()))
+import json
+if a.prop == "c17":
+    _c17 = c17
+    def c17(R): _c17(R); c17_shipped(R)
 globals()[a.prop + "_report"]().run(globals()[a.prop]).write(a.out)
